@@ -160,6 +160,7 @@ pub fn cli(args: Vec<String>) -> i32 {
     let mut replay: Option<String> = None;
     let mut trace_hash = false;
     let mut write_evidence = true;
+    let mut gen_as: Option<String> = None;
     let mut i = 1;
     while i < args.len() {
         match args[i].as_str() {
@@ -184,6 +185,10 @@ pub fn cli(args: Vec<String>) -> i32 {
                 replay = Some(args[i].clone());
             }
             "--trace-hash" => trace_hash = true,
+            "--gen-as" => {
+                i += 1;
+                gen_as = Some(args[i].clone());
+            }
             "--no-evidence" => write_evidence = false,
             x => {
                 eprintln!("unknown argument {x}");
@@ -199,7 +204,8 @@ pub fn cli(args: Vec<String>) -> i32 {
         eprintln!("unknown property {prop}");
         return 2;
     }
-    batch(&prop, tier, seed, runs.unwrap_or_else(|| budget(&prop, tier)), threads, trace_hash, write_evidence)
+    let g = gen_as.unwrap_or_else(|| prop.clone());
+    batch(&prop, &g, tier, seed, runs.unwrap_or_else(|| budget(&prop, tier)), threads, trace_hash, write_evidence)
 }
 
 fn do_replay(file: &str) -> i32 {
@@ -242,7 +248,7 @@ fn do_replay(file: &str) -> i32 {
     }
 }
 
-fn batch(prop: &str, tier: Tier, seed: u64, runs: u64, threads: usize, trace_hash: bool, write_evidence: bool) -> i32 {
+fn batch(prop: &str, gen_prop: &str, tier: Tier, seed: u64, runs: u64, threads: usize, trace_hash: bool, write_evidence: bool) -> i32 {
     let t0 = Instant::now();
     println!("simcheck property={prop} tier={:?} VERIF_SEED={seed} runs={runs} threads={threads}", tier);
     let next = AtomicU64::new(0);
@@ -259,8 +265,8 @@ fn batch(prop: &str, tier: Tier, seed: u64, runs: u64, threads: usize, trace_has
                     if run >= runs || t0.elapsed().as_secs_f64() > wall_cap {
                         break;
                     }
-                    let mut rng = Rng::for_run(seed, prop, run);
-                    let (case, o) = scen::generate(prop, &mut rng, tier, run);
+                    let mut rng = Rng::for_run(seed, gen_prop, run);
+                    let (case, o) = scen::generate(gen_prop, &mut rng, tier, run);
                     absorb(&mut local, prop, run, &case, &o, trace_hash);
                     if let Some(v) = &o.viol {
                         if v.props.is_empty() {
